@@ -23,4 +23,4 @@ INIT MCInit
 NEXT MCNext
 CHECK_DEADLOCK FALSE
 VIEW View
-INVARIANTS C05_ValidatedBeforeMerged C05_ValidatedIsReadable C05_RejectedChangesNothing
+INVARIANTS C05_ValidatedBeforeMerged C05_ValidatedIsReadable C05_RejectedChangesNothing Cover
